@@ -55,7 +55,7 @@ pub fn h_infix_step<M: VMode, Er: VEr>() {
         let operand = anyp::<SymIn<u8>, X<Er>>(1);
         let f = |inp: &mut IR<'_, u8, Er>, mp: u32| -> PResult<M, u16> {
             inp.state.reg[5] = mp as usize;
-            operand.go::<M>(inp)
+            operand.gov::<M>(inp)
         };
         let pre_op = inp.save();
         let mut pre_expr = inp.cursor();
@@ -116,7 +116,7 @@ pub fn h_prefix_step<M: VMode, Er: VEr>() {
         let operand = anyp::<SymIn<u8>, X<Er>>(1);
         let f = |inp: &mut IR<'_, u8, Er>, mp: u32| -> PResult<M, u16> {
             inp.state.reg[5] = mp as usize;
-            operand.go::<M>(inp)
+            operand.gov::<M>(inp)
         };
         let pre_expr = inp.save();
         let r: PResult<M, u16> = op.do_parse_prefix::<M>(inp, &pre_expr, &f);
@@ -215,7 +215,7 @@ pub fn h_infix_table<M: VMode, Er: VEr, const KIND: usize>() {
             if k < 2 {
                 inp.state.reg[4 + k] = mp as usize;
             }
-            operand.go::<M>(inp)
+            operand.gov::<M>(inp)
         };
         let pre_op = inp.save();
         let pre_expr = inp.cursor();
@@ -293,7 +293,7 @@ pub fn h_pratt_chain<M: VMode, Er: VEr, const N: usize>() {
             }
             l.wrapping_mul(31).wrapping_add(r)
         }),));
-        let r = p.go::<M>(inp);
+        let r = p.gov::<M>(inp);
         let s = snap(inp);
         let (a0, a1, a2) = (lg(inp, 0), lg(inp, 1), lg(inp, 2));
         let (o0, o1) = (lg(inp, 3), lg(inp, 4));
